@@ -1432,3 +1432,111 @@ func verifPathArray2Channel(param string, explode bool, a, b string, f func(d De
 	}
 	return NewPathDecoder(PathDecoderConfig{Param: param, Value: u, Style: PathStyleSimple, Explode: explode}).DecodeArray(f)
 }
+
+// The same channel for style label (explode=false: ".a,b"; explode=true: ".a.b"): the style prefix and
+// the delimiter of the row are plain bytes for the percent-decoder.
+//@ lemma unescJoin2d(a string, b string, d byte)
+//@   uses pathEscapeInverse, pathUnescapeCat, pathUnescapePlain, pathUnescapeBytePrefix
+//@   requires plain: d != '%'
+//@   ensures ok:  verifUnescOK(url.PathEscape(a) + str1(d) + url.PathEscape(b))
+//@   ensures val: verifUnescVal(url.PathEscape(a) + str1(d) + url.PathEscape(b)) == a + str1(d) + b
+//@   assert tail: verifUnescOK(str1(d) + url.PathEscape(b)) && verifUnescVal(str1(d) + url.PathEscape(b)) == str1(d) + b
+//@   trigger verifUnescVal(url.PathEscape(a) + str1(d) + url.PathEscape(b))
+
+//@ lemma pieces2d(a string, b string, d byte)
+//@   uses indexBCat, indexBNone
+//@   requires free: noByte(a, d) && noByte(b, d) && len(b) > 0
+//@   ensures items: vSeqEq(pieces(a + str1(d) + b, d), []string{a, b})
+//@   ensures ok:    okPieces(a + str1(d) + b, d)
+//@   assert first: indexB(a + str1(d) + b, d) == len(a)
+//@   assert last:  indexB(b, d) < 0
+//@   trigger pieces(a + str1(d) + b, d)
+
+// @ func verifLabelArray2Wire(param string, explode bool, a string, b string) (s string, err error)
+// @   ensures refused: !(noByte(a, specPathArrayDelim(PathStyleLabel, explode)) && noByte(b, specPathArrayDelim(PathStyleLabel, explode))) ==> err != nil
+// @   ensures wire:    noByte(a, specPathArrayDelim(PathStyleLabel, explode)) && noByte(b, specPathArrayDelim(PathStyleLabel, explode)) ==>
+// @                      err == nil && s == "." + (url.PathEscape(a) + str1(specPathArrayDelim(PathStyleLabel, explode)) + url.PathEscape(b))
+func verifLabelArray2Wire(param string, explode bool, a, b string) (string, error) {
+	e := NewPathEncoder(PathEncoderConfig{Param: param, Style: PathStyleLabel, Explode: explode})
+	if err := e.EncodeArray(func(e Encoder) error {
+		if err := e.EncodeValue(a); err != nil {
+			return err
+		}
+		return e.EncodeValue(b)
+	}); err != nil {
+		return "", err
+	}
+	return e.Result()
+}
+
+// @ func verifLabelArray2Channel(param string, explode bool, a string, b string, f func(d Decoder) error) (err error)
+// @   callback f(d Decoder) log vals d.(*constval).v
+// @   requires nonempty: len(a) > 0 && len(b) > 0
+// @   modifies cb:f
+// @   uses unescJoin2d, pieces2d, pathUnescapeBytePrefix
+// @   ensures refused:   !(noByte(a, specPathArrayDelim(PathStyleLabel, explode)) && noByte(b, specPathArrayDelim(PathStyleLabel, explode))) ==> err != nil && vSeqEq(vCbLog(f, "vals"), old(vCbLog(f, "vals")))
+// @   ensures delivered: noByte(a, specPathArrayDelim(PathStyleLabel, explode)) && noByte(b, specPathArrayDelim(PathStyleLabel, explode)) && vCbOK(f) ==>
+// @                        err == nil && vSeqEq(vCbLog(f, "vals"), vCat(old(vCbLog(f, "vals")), []string{a, b}))
+func verifLabelArray2Channel(param string, explode bool, a, b string, f func(d Decoder) error) error {
+	s, err := verifLabelArray2Wire(param, explode, a, b)
+	if err != nil {
+		return err
+	}
+	u, err := url.PathUnescape(s)
+	if err != nil {
+		return err
+	}
+	return NewPathDecoder(PathDecoderConfig{Param: param, Value: u, Style: PathStyleLabel, Explode: explode}).DecodeArray(f)
+}
+
+// ---------------------------------------------------------------------------
+// 2h. Channel harness for a flat OBJECT path parameter with one field, style simple (explode=true: "k=v",
+//     explode=false: "k,v"): real encoder (EncodeField with one EncodeValue), url.PathUnescape, real decoder
+//     (DecodeFields): the callback receives exactly the name and the value; a name containing the key/value
+//     separator or a value containing the field separator is refused by the encoder.
+// ---------------------------------------------------------------------------
+
+//@ lemma field1(k string, v string, kv byte, fs byte)
+//@   uses indexBCat, indexBNone
+//@   requires free: noByte(k, kv) && noByte(v, fs) && len(v) > 0
+//@   ensures names:  vSeqEq(fieldNames(k + str1(kv) + v, kv, fs), []string{k})
+//@   ensures values: vSeqEq(fieldValues(k + str1(kv) + v, kv, fs), []string{v})
+//@   ensures ok:     okFields(k + str1(kv) + v, kv, fs)
+//@   assert first: indexB(k + str1(kv) + v, kv) == len(k)
+//@   assert rest:  indexB(v, fs) < 0
+//@   trigger fieldNames(k + str1(kv) + v, kv, fs)
+//@   trigger fieldValues(k + str1(kv) + v, kv, fs)
+//@   trigger okFields(k + str1(kv) + v, kv, fs)
+
+// @ func verifPathObject1Wire(param string, explode bool, k string, v string) (s string, err error)
+// @   ensures refused: !(noByte(k, specPathObjKV(PathStyleSimple, explode)) && noByte(v, ',')) ==> err != nil
+// @   ensures wire:    noByte(k, specPathObjKV(PathStyleSimple, explode)) && noByte(v, ',') ==>
+// @                      err == nil && s == url.PathEscape(k) + str1(specPathObjKV(PathStyleSimple, explode)) + url.PathEscape(v)
+func verifPathObject1Wire(param string, explode bool, k, v string) (string, error) {
+	e := NewPathEncoder(PathEncoderConfig{Param: param, Style: PathStyleSimple, Explode: explode})
+	if err := e.EncodeField(k, func(e Encoder) error { return e.EncodeValue(v) }); err != nil {
+		return "", err
+	}
+	return e.Result()
+}
+
+// @ func verifPathObject1Channel(param string, explode bool, k string, v string, f func(name string, d Decoder) error) (err error)
+// @   callback f(name string, d Decoder) log names name
+// @   callback f(name string, d Decoder) log values d.(*constval).v
+// @   requires nonempty: len(v) > 0
+// @   modifies cb:f
+// @   uses unescJoin2d, field1
+// @   ensures refused:   !(noByte(k, specPathObjKV(PathStyleSimple, explode)) && noByte(v, ',')) ==> err != nil && vSeqEq(vCbLog(f, "names"), old(vCbLog(f, "names")))
+// @   ensures delivered: noByte(k, specPathObjKV(PathStyleSimple, explode)) && noByte(v, ',') && vCbOK(f) ==> err == nil &&
+// @                        vSeqEq(vCbLog(f, "names"), vCat(old(vCbLog(f, "names")), []string{k})) && vSeqEq(vCbLog(f, "values"), vCat(old(vCbLog(f, "values")), []string{v}))
+func verifPathObject1Channel(param string, explode bool, k, v string, f func(name string, d Decoder) error) error {
+	s, err := verifPathObject1Wire(param, explode, k, v)
+	if err != nil {
+		return err
+	}
+	u, err := url.PathUnescape(s)
+	if err != nil {
+		return err
+	}
+	return NewPathDecoder(PathDecoderConfig{Param: param, Value: u, Style: PathStyleSimple, Explode: explode}).DecodeFields(f)
+}
